@@ -31,6 +31,9 @@ QUICK = [
     ('split_orderbook_last', dict(T=4, ob_last=True, orders=((0, 1, 2.0), (2, 4, -1.5), (3, 4, 1.0))), '2h', 'A'),
     ('split_alternating_nodes', dict(T=4), '2h', 'A'),
     ('mixed_discount_rates', dict(T=2), None, 'B'),
+    ('first_node_idle_in_second_interval', dict(T=4, win=(0, 2)), '2h', 'A'),
+    ('first_node_outside_horizon', dict(T=3, win=(6, 8)), None, 'B'),
+    ('first_node_idle_after_window', dict(T=4, win=(0, 2)), None, 'B'),
     ('split_structured', dict(T=4), '2h', 'A'),
     ('split_scaled_storage', dict(T=4, base='storage'), '2h', 'A'),
 ]
@@ -56,7 +59,7 @@ THOROUGH = QUICK + [
     ('windows_gap_two_nodes', dict(T=5, wins=((0, 2), (1, 2), (3, 5), (4, 5)), two_nodes=True), None, 'B'),
     ('windows_gap_split', dict(T=4, wins=((0, 1), (0, 1), (3, 4), (3, 4))), '4h', 'A'),
 ]
-SHAPE_OF = dict(split_structured='structured', split_scaled_storage='scaled', split_orderbook_last='orderbook', split_alternating_nodes='alternating', mixed_discount_rates='mixed_wacc', windows_gap='windows', windows_gap_two_nodes='windows', windows_gap_split='windows', two_node_2n_storage='two_node', plant_fuel='plant', chp_fuel='plant', coarse_contract='coarse',
+SHAPE_OF = dict(first_node_idle_in_second_interval='early_node', first_node_outside_horizon='early_node', first_node_idle_after_window='early_node', split_structured='structured', split_scaled_storage='scaled', split_orderbook_last='orderbook', split_alternating_nodes='alternating', mixed_discount_rates='mixed_wacc', windows_gap='windows', windows_gap_two_nodes='windows', windows_gap_split='windows', two_node_2n_storage='two_node', plant_fuel='plant', chp_fuel='plant', coarse_contract='coarse',
                 coarse_transport='coarse', periodic_transport='periodic', scaled_transport='scaled',
                 split_two_node='two_node', window_transport='two_node', two_node_T4='two_node',
                 multicommodity_win='multicommodity', plant_fuel_mr='plant', chp_T3='plant', coarse_contract_win='coarse',
@@ -69,7 +72,7 @@ SHAPE_OF = dict(split_structured='structured', split_scaled_storage='scaled', sp
 BOUNDS = dict(quick='catalogue shapes %s; T<=4; all feasible set-up paths; all numbers symbolic (Level B) unless marked A'
               % [c[0] for c in QUICK],
               thorough='catalogue shapes %s; T<=8' % [c[0] for c in THOROUGH])
-OUTSIDE = ['longer horizons / larger portfolios', 'IEEE rounding', 'SLP output averaging']
+OUTSIDE = ['longer horizons / larger portfolios', 'IEEE rounding']
 
 
 def _norm_kw(kw):
@@ -103,6 +106,10 @@ def cases(tier, seed):
     lst = THOROUGH if tier == 'thorough' else QUICK
     lst = lst + grid_variants(lst, tier, SHAPE_OF, GRIDV_QUICK)
     out = []
+    # two-stage stochastic problems: the reported dispatch (future steps: mean over the scenarios) balances as well
+    out.append(('slp_two_node', dict(shape='two_node', kw=dict(T=3), split='slp', level='A', slp=dict(boundary=1, S=2))))
+    out.append(('slp_multicommodity', dict(shape='multicommodity', kw=dict(T=3, take=(0, 3)), split='slp', level='A', slp=dict(boundary=2, S=1))))
+    out.append(('slp_plant_fuel', dict(shape='plant', kw=dict(T=3, fuel=True), split='slp', level='A', slp=dict(boundary=1, S=1))))
     for cid, kw, split, level in lst:
         shape = SHAPE_OF.get(cid.split('@')[0], cid.split('@')[0])
         kw = dict(kw)
@@ -110,9 +117,14 @@ def cases(tier, seed):
     return out
 
 
-def run_case(case_id, tier, seed, shape, kw, split, level):
+def run_case(case_id, tier, seed, shape, kw, split, level, slp=None):
     rec = lpsem.Rec(PROP, case_id)
-    res = scen.explore(shape, kw, split=split, level=level)
+    if split == 'slp':
+        from . import c04
+        from .. import lift
+        res = lift.explore_build(lambda D: c04.slp_scenario(D, shape, kw, slp['boundary'], slp['S']), level=level)
+    else:
+        res = scen.explore(shape, kw, split=split, level=level)
     rec.paths = len(res)
     validated = False
     for pi, (path, D) in enumerate(res):
@@ -148,6 +160,9 @@ def run_case(case_id, tier, seed, shape, kw, split, level):
 
 
 def observe(case, kwargs, env, rq):
+    if kwargs.get('split') == 'slp':
+        from . import c04
+        return c04.observe(case, kwargs, env, rq)
     return scen.observe(case, kwargs, env, rq)
 
 
